@@ -38,7 +38,7 @@ def _work(cfg):
     t0 = time.time()
     import signal
 
-    class _Budget(Exception):
+    class _Budget(BaseException):
         pass
 
     def _alarm(signum, frame):
